@@ -1,0 +1,38 @@
+//go:build verif
+
+// Contracts for package storage, read by /verif/engine (govc). Comments only.
+package storage
+
+// ---------------------------------------------------------------- storage.go (C15)
+
+// Number of matching entries among the first k of the list.
+//@ spec rec cntMatch(list []*KeyValue, m func(value []byte) bool, k int) int =
+//@     ite(k <= 0, 0, cntMatch(list, m, k-1) + ite(m(list[k-1].Value), 1, 0))
+
+// "pagination with offset/limit ... returns the corresponding slice of that list": the result
+// holds min(limit, matches - offset) entries (never negative), and its j-th entry is the value
+// of THE entry that is the (offset+j)-th match -- stated without an existential: for every list
+// position k that matches and has exactly offset+j matches before it, result[j] is its value.
+//@ func DoListFunc
+//@   props C15
+//@   opt purefunc=match
+//@   requires offset >= 0 && limit >= 0 && offset + limit <= 4611686018427387904
+//@   requires forall k int :: 0 <= k && k < len(list) ==> list[k] != nil
+//@   modifies nothing
+// Stated over the prefix of the list that was examined (n entries): the scan stops early only
+// when the page is full -- no induction over the unexamined tail is needed.
+//@   ensures exists n int :: 0 <= n && n <= len(list)
+//@       && len(result) == max(0, cntMatch(list, match, n) - offset)
+//@       && len(result) <= max(0, min(offset + limit, len(list)) - offset)
+//@       && (n == len(list) || len(result) == max(0, min(offset + limit, len(list)) - offset))
+//@       && (forall j int, k int :: 0 <= j && j < len(result) && 0 <= k && k < n && match(list[k].Value)
+//@           && cntMatch(list, match, k) == offset + j ==> result[j] == str(list[k].Value))
+//@   loop 1
+//@     modifies elems(matches)
+//@     invariant 0 <= _i && _i <= len(list) && i == cntMatch(list, match, _i) && 0 <= i && i <= _i
+//@     invariant size == min(offset + limit, len(list)) - offset && size > 0 && cap(matches) == size
+//@     invariant samearray(matches[:0], before(matches)[:0])
+//@     invariant len(matches) == max(0, i - offset) && len(matches) < size
+//@     invariant forall k int :: 0 <= k && k < _i && match(list[k].Value) ==> cntMatch(list, match, k) < i
+//@     invariant forall j int, k int :: 0 <= j && j < len(matches) && 0 <= k && k < _i && match(list[k].Value)
+//@       && cntMatch(list, match, k) == offset + j ==> matches[j] == str(list[k].Value)
